@@ -15,6 +15,7 @@ def Ty.GenOK (t : Ty) : Prop :=
   match t with
   | .variant _ => False
   | .int r | .tspan r => r.inI64
+  | .tstamp r => tstampAll.sub r = true
   | .float lo hi => -Fl.inf ≤ lo ∧ hi ≤ Fl.inf
   | .coll r => r.isSize
   | .array e r => r.isSize ∧ Ty.GenOK e
@@ -123,6 +124,10 @@ theorem gen_asg : ∀ (n : Nat) (t : Ty), t.w ≤ n → Ty.WF cfg t → t.NoAlia
       unfold Ty.GenOK at gt
       simp only [generalize, genericType]
       exact ⟨viaR cfg sfh rfl (by unfold asgRecv; exact all_sub_i64 gt), self⟩
+    | tstamp r =>
+      unfold Ty.GenOK at gt
+      simp only [generalize, genericType]
+      exact ⟨viaR cfg sfh rfl (by unfold asgRecv; exact gt), self⟩
     | object p =>
       simp only [generalize, genericType]
       exact ⟨viaR cfg sfh rfl (by unfold asgRecv; simp), self⟩
